@@ -204,6 +204,10 @@ class Ctx:
 
     def run_model(self, cmd, lines, timeout=1200):
         data = ("\n".join(lines) + "\n").encode()
+        for _ in range(120):       # the driver binary is replaced (not updated in place) when another check relinks it
+            if os.path.exists(MODEL):
+                break
+            time.sleep(1)
         p = subprocess.run([MODEL, cmd], input=data, stdout=subprocess.PIPE, stderr=subprocess.PIPE, timeout=timeout)
         out = p.stdout.decode("utf-8", "replace").split("\n")
         if out and out[-1] == "":
